@@ -173,6 +173,10 @@ def run(ctx):
             ctx.violation(clause, {"kind": "song", "body": rec["text"], "raised": rec["raised"], "obs": rec["obs"], "entry": rec.get("entry", "file")},
                           key=clause + ("" if rec.get("entry", "file") == "file" else "|section-level-entry-point"))
     ctx.exhaustive = True
+    # block boundaries: the section laid out so that boundaries of every power-of-two block size (and of multiples of 1000)
+    # fall right behind, just after and inside its lines; > 2^20 characters; through from_file and from_filepath
+    from chartgen import judge_block_alignment
+    judge_block_alignment(ctx, "C10", ['song'])
     ctx.assumptions += [
         "canonical string field: Name = \"<non-empty text>\" (one surrounding pair of quotes); canonical numeric field: ASCII digits; Player2 = bass | rhythm",
         "a field with no line (in its most liberal reading) takes its documented default; a field with two lines, or a non-canonical spelling, is not constrained",
